@@ -106,6 +106,12 @@ fn corpus(rng: &mut Rng) -> Vec<(String, Vec<u8>)> {
     let noise = random_rgba(rng, 24, 17, 3);
     let f = crate::oracle::encode(&noise, 24, 17, true, |c| { c.lossless = 1; c.quality = 80.0; c.method = 4; c.exact = 1; });
     v.push(("libwebp_lossless_noise".into(), f));
+    // grammar-generated VP8L streams (every transform, cache, meta codes, deep codes, references)
+    for k in 0..4 {
+        let (gw, gh) = (3 + rng.below(14) as u32, 2 + rng.below(10) as u32);
+        let (st, _) = crate::vp8lgen::stream(rng, gw, gh);
+        v.push((format!("generated_vp8l_{k}"), riff(&chunk(b"VP8L", &st))));
+    }
     // metadata through the crate's encoder
     let mut out = Vec::new();
     {
